@@ -21,7 +21,7 @@ def check_c09(ctx):
     docs = [dict(text=d["text"]) for d in docs if d["pred"]["valid"]]
     # ranges and references with their own quantity, in every unit family: the fraction fit and the per-ingredient loop
     for v in ["3-6", "7.5-15", "1-2", "0.5-4", "2-16", "10-500", "1/3-2/3", "250"]:
-        for u in ["tsp", "tbsp", "cup", "ml", "l", "fl oz", "oz", "lb", "g", "kg", "pint", "cm", "inch"]:
+        for u in ["tsp", "tbsp", "cup", "ml", "l", "fl oz", "oz", "lb", "g", "kg", "pint", "cm", "inch", "°C", "°F", "dl", "dag"]:
             docs.append(dict(text=f"@x{{{v}%{u}}}\n"))
             docs.append(dict(text=f"@flour{{1000%g}} and @milk{{1%l}} then @&flour{{{v}%{u}}} or @&milk{{{v}%{u}}}\n"))
     pin = os.path.join(ctx.work, "c_in.ndjson")
@@ -40,6 +40,9 @@ def check_c09(ctx):
             if x["kind_rec"] == "model":
                 what = f"{x['q']} -> {x['kind']} {x['target']!r}: predicted {x['pred']}, observed {x['obs']}"
                 key = f"{c}:{x['kind']}"
+            elif x["kind_rec"] == "fit":
+                what = f"Quantity::fit in {x['unit']}: {x['bad']} of {x['values']} values change the amount (first: {x['first']}), {x['panics']} panics"
+                key = f"{c}:{x['unit']}"
             elif x["kind_rec"] == "bundled":
                 what = f"bundled {x['from']} -> {x['to']}: back_ok={x['back_ok']} via_ok={x['via_ok']} std_ok={x['std_ok']} worst={x['worst_ppb']}ppb"
                 key = f"{c}:{x['from']}"
